@@ -73,6 +73,15 @@ def directed() -> list[dict[str, Any]]:
         {'kind': 'delete', 'id': 'd1'},
     ], timeline=[[0, 'create', 'a', {'spec': {'x': 1}}], [0.5, 'start', 'op1'], [1.2, 'edit', 'a', {'spec': {'x': 2}}],
                  [25, 'edit', 'a', {'metadata': {'labels': {'l': 'v'}}}], [40, 'delete', 'a']]))
+    # D4: a handled object, a restart, resume handlers of which one retries, and an edit while the resume cycle is open
+    out.append(dict(base, name='D4', handlers=[
+        {'kind': 'create', 'id': 'c1'},
+        {'kind': 'resume', 'id': 'r1', 'script': [['ok'], ['ok']]},
+        {'kind': 'resume', 'id': 'r2', 'script': [['temp', 3], ['ok'], ['temp', 3], ['ok']]},
+        {'kind': 'update', 'id': 'u1', 'script': [['temp', 1], ['ok']]},
+    ], timeline=[[0, 'start', 'op1'], [1, 'create', 'a', {'spec': {'x': 1}}], [5, 'stop_wait', 'op1'], [6, 'start', 'op2'],
+                 [7, 'edit', 'a', {'spec': {'x': 2}}], [30, 'stop_wait', 'op2'], [31, 'start', 'op3'], [31.5, 'edit', 'a', {'status': {'f': 1}}],
+                 [32.5, 'edit', 'a', {'spec': {'x': 3}}]]))
     return out
 
 
@@ -95,10 +104,10 @@ def gen_cases(tier: str, seed: int):
 
 def random_desc(rng: random.Random, i: int) -> dict[str, Any]:
     handlers: list[dict[str, Any]] = []
-    for kind, pfx, lo, hi in (('create', 'c', 1, 4), ('update', 'u', 0, 3), ('delete', 'd', 0, 2)):
+    for kind, pfx, lo, hi in (('create', 'c', 1, 4), ('update', 'u', 0, 3), ('delete', 'd', 0, 2), ('resume', 'r', 0, 2)):
         for j in range(rng.randint(lo, hi)):
             h: dict[str, Any] = {'kind': kind, 'id': f'{pfx}{j + 1}', 'script': _rand_script(rng)}
-            if kind != 'delete' and rng.random() < 0.25:
+            if kind in ('create', 'update') and rng.random() < 0.25:
                 h['subs'] = [{'id': f's{k + 1}', 'script': _rand_script(rng, 2)} for k in range(rng.randint(1, 2))]
             if rng.random() < 0.2:
                 h['opts'] = {'errors': rng.choice(['permanent', 'ignored', 'temporary']), 'backoff': rng.choice([0.5, 2])}
